@@ -1839,7 +1839,7 @@ class _nxm_ipv6 (object):
     elif isinstance(value, str):
       ip,mask = IPAddr6.parse_cidr(value, allow_host = True)
       #self.mask = 128 if mask is None else mask
-      self.mask = mask
+      if '/' in value: self.mask = mask
     else:
       ip = value
 
